@@ -389,4 +389,52 @@ theorem parseUpdate_eor_ipv4 (od : OpaqueDec) (peer : Codec) :
   unfold parseUpdate
   simp [frame_body, updateSections, beNat, tlvs, attrLoop]
 
+/-! ### length consistency of the MP / withdraw frames -/
+
+theorem reach_mp_struct {tb : Bool} (f : Fam) (ab : Bytes) (fin : List Attr) (P : AttrPart tb ab fin)
+    (nhb nb : Bytes) (hnl : nhb.length < 256)
+    (hsz : ab.length + (encRaw (mpReachRaw f nhb nb)).length < 65536) :
+    frameLengths (frame 2 ([0, 0] ++ be16 (ab.length + (encRaw (mpReachRaw f nhb nb)).length) ++
+        (ab ++ encRaw (mpReachRaw f nhb nb)))) = none := by
+  obtain ⟨_, _, pn, _, _, plen⟩ := mpReachVal_parts f nhb nb
+  have hmpok : RawOk (mpReachRaw f nhb nb) := by
+    refine ⟨?_, fun h => ?_⟩
+    · have : (encRaw (mpReachRaw f nhb nb)).length = 4 + (mpReachRaw f nhb nb).val.length := by
+        rw [encRaw_mpReach]; simp [mpReachRaw]; omega
+      omega
+    · simp [mpReachRaw, hasExt_144] at h
+  apply frameLengths_update _ ⟨[], ab ++ encRaw (mpReachRaw f nhb nb), []⟩ (P.raws ++ [mpReachRaw f nhb nb])
+  · have := updateSections_enc [] (ab ++ encRaw (mpReachRaw f nhb nb)) [] (by simp) (by simp; omega)
+    simpa [be16_zero, List.append_assoc] using this
+  · have := P.tlvs_eq [mpReachRaw f nhb nb] (by intro r hr; simp at hr; rw [hr]; exact hmpok)
+    simpa using this
+  · simp only [List.all_append, Bool.and_eq_true, List.all_eq_true]
+    refine ⟨fun r hr => mpValueOk_plain r (P.hplain r hr), ?_⟩
+    intro r hr; simp at hr; rw [hr]
+    simp only [mpValueOk, mpReachRaw, if_true, pn, beNat_single, plen, Bool.and_eq_true, decide_eq_true_eq]
+    omega
+
+theorem unreach_legacy_struct (nb : Bytes) (hsz : nb.length < 65536) :
+    frameLengths (frame 2 (be16 nb.length ++ nb ++ [0, 0])) = none := by
+  apply frameLengths_update _ ⟨nb, [], []⟩ []
+  · have := updateSections_enc nb [] [] hsz (by simp)
+    simpa [be16_zero, List.append_assoc] using this
+  · simp [tlvs]
+  · rfl
+
+theorem unreach_mp_struct (f : Fam) (nb : Bytes) (hsz : 7 + nb.length < 65536) :
+    frameLengths (frame 2 ([0, 0] ++ be16 (encRaw (mpUnreachRaw f nb)).length ++ encRaw (mpUnreachRaw f nb))) = none := by
+  have hel : (encRaw (mpUnreachRaw f nb)).length = 7 + nb.length := by
+    rw [encRaw_mpUnreach]; simp; omega
+  have hok : RawOk (mpUnreachRaw f nb) := by
+    refine ⟨?_, fun h => ?_⟩
+    · simp only [mpUnreachRaw, List.length_append, be16_length, List.length_cons, List.length_nil]; omega
+    · simp [mpUnreachRaw, hasExt_144] at h
+  apply frameLengths_update _ ⟨[], encRaw (mpUnreachRaw f nb), []⟩ [mpUnreachRaw f nb]
+  · have := updateSections_enc [] (encRaw (mpUnreachRaw f nb)) [] (by simp) (by omega)
+    simpa [be16_zero, List.append_assoc] using this
+  · have := tlvs_encRaw (mpUnreachRaw f nb) [] hok
+    simpa [tlvs] using this
+  · simp [mpValueOk, mpUnreachRaw]; omega
+
 end Rbgp.Enc
